@@ -17,7 +17,7 @@
 -/
 import Qfx.Spec.Link
 import Qfx.Props.C01
-import Qfx.Lemmas.LinkC05i
+import Qfx.Lemmas.LinkC05q
 open Qfx Qfx.Sess Qfx.Link
 
 theorem isPrefix_iff (a b : List String) : isPrefix a b = true ↔ ∃ t, b = a ++ t := by
@@ -254,6 +254,117 @@ instance (l : LSt) (evs : List LEv) : Decidable (C05_numbers_fit l evs) := decAl
 #guard decide (C05_numbers_fit (linkInit cexA cexB) demoHistory)
 #guard (let l := runLink (linkInit cexA cexB) demoHistory; (l.sentA, l.dlvB, l.sentB, l.dlvA)) == (["a1", "a2", "a3"], ["a1", "a2", "a3"], ["b1"], ["b1"])
 
+/-! ## liveness: after settling, delivered = submitted -/
+
+/-- the FULL liveness statement (not proved in this generality: ResendRequest chunking is not covered).  From every state
+    a fault history can reach, some schedule of settling events — a reconnect (cut, connect), deliveries, run-loop flushes
+    of the send queue — makes delivered = submitted in both directions without submitting anything new.  Hypotheses beyond
+    those of `C05_safety`: the roles, non-empty CompIDs, a DefaultApplVerID when the transport is FIXT.1.1 (otherwise no
+    Logon is ever accepted), head-room for the numbers the resynchronisation itself uses. -/
+def C05_liveness_full : Prop :=
+  ∀ (cfgA cfgB : Cfg) (evs : List LEv),
+    CfgsOK cfgA cfgB → cfgA.initiator = true → cfgB.initiator = false →
+    (cfgA.bs = 5 → cfgA.applVer ≠ "" ∧ cfgB.applVer ≠ "") →
+    (∀ side p, LEv.send side p ∈ evs → p ≠ "") → C05_numbers_fit (linkInit cfgA cfgB) evs →
+    let l := runLink (linkInit cfgA cfgB) evs
+    (l.a.store.sender + l.b.store.sender) * 2 + 3 ≤ maxSeq →
+    ∃ sched : List LEv, (∀ e ∈ sched, SettleEv e) ∧
+      let l' := runLink l sched
+      l'.dlvB = l'.sentA ∧ l'.dlvA = l'.sentB ∧ l'.sentA = l.sentA ∧ l'.sentB = l.sentB
+
+/-- **liveness (a): no gap.**  Any link state satisfying the invariant in which both engines are logged on and each link
+    carries exactly the peer's messages from the receiver's expected number up to the sender's next number (`Seg`:
+    application messages, heartbeats, rejects, PossDup copies, gap fills — nothing that needs an answer): delivering
+    everything in flight makes delivered = submitted in both directions, with nothing left in flight. -/
+theorem C05_liveness_nogap (cfgA cfgB : Cfg) (hcf : CfgsOK cfgA cfgB) (l : LSt) (h : LInv cfgA cfgB l) (hb : Bnd l)
+    (hsa : RecvAt l.a.st l.a.store.target) (hsb : RecvAt l.b.st l.b.store.target) (hoa : l.a.out = true) (hob : l.b.out = true)
+    (hab : Seg l.a.store l.b.store.target l.a2b l.a.store.sender) (hba : Seg l.b.store l.a.store.target l.b2a l.b.store.sender) :
+    let l' := runLink l (List.replicate l.a2b.length (.deliver .B) ++ List.replicate l.b2a.length (.deliver .A))
+    l'.dlvB = l'.sentA ∧ l'.dlvA = l'.sentB ∧ l'.a2b = [] ∧ l'.b2a = [] ∧ LInv cfgA cfgB l' := by
+  intro l'
+  have := settle_nogap hcf l h hb hsa hsb hoa hob hab hba
+  rw [← runLink_eq] at this
+  exact this
+
+/-- **liveness (b), any state: reconnect, no chunking.**  Configurations as for safety plus the roles, chunk size 0 on both
+    sides and a DefaultApplVerID under FIXT.  From ANY link state that satisfies the invariants (`LInv`, every used number
+    stored, not outside the session time), with three numbers of head-room: the schedule
+    `cut, connect, deliver B, deliver A, flush A, flush B` followed by deliveries only (each side's ResendRequest, then
+    each replay) ends `Settled`: delivered = submitted in both directions, nothing in flight, both engines in session —
+    whatever the gaps (none, on either side, on both sides), and nothing new is submitted. -/
+theorem C05_liveness_reconnect_state (cfgA cfgB : Cfg) (hl : LiveCfg cfgA cfgB) (l : LSt) (h : LInv cfgA cfgB l) (hf : LFull l)
+    (ht : InTime l) (hb : Bnd l)
+    (hb3 : (lstep l .cut).1.a.store.sender + 3 ≤ maxSeq ∧ (lstep l .cut).1.b.store.sender + 3 ≤ maxSeq) :
+    ∃ sched, (∀ e ∈ sched, SettleEv e) ∧ Settled cfgA cfgB (runLink l sched) ∧
+      (runLink l sched).sentA = l.sentA ∧ (runLink l sched).sentB = l.sentB := by
+  obtain ⟨sched, h1, h2, h3, h4⟩ := settle_reconnect hl h hf ht hb hb3
+  exact ⟨sched, h1, by rw [runLink_eq]; exact h2, by rw [runLink_eq]; exact h3, by rw [runLink_eq]; exact h4⟩
+
+/-- **liveness (b)/(d), every fault history, no chunking.**  After EVERY fault history (non-empty payloads, numbers within
+    Go's `int`, three numbers of head-room after the cut) there is a settling schedule — a reconnect, the Logon exchange,
+    one flush per side, deliveries — after which both delivered lists EQUAL the submitted lists, nothing is in flight and
+    both engines are in session. -/
+theorem C05_liveness_reconnect (cfgA cfgB : Cfg) (evs : List LEv) (hl : LiveCfg cfgA cfgB)
+    (hpay : ∀ side p, LEv.send side p ∈ evs → p ≠ "") (hfit : C05_numbers_fit (linkInit cfgA cfgB) evs) :
+    let l := runLink (linkInit cfgA cfgB) evs
+    (lstep l .cut).1.a.store.sender + 3 ≤ maxSeq ∧ (lstep l .cut).1.b.store.sender + 3 ≤ maxSeq →
+    ∃ sched : List LEv, (∀ e ∈ sched, SettleEv e) ∧
+      let l' := runLink l sched
+      l'.dlvB = l'.sentA ∧ l'.dlvA = l'.sentB ∧ l'.a2b = [] ∧ l'.b2a = [] ∧ l'.a.st = .inSession ∧ l'.b.st = .inSession ∧
+      l'.sentA = l.sentA ∧ l'.sentB = l.sentB := by
+  intro l hb3
+  have hev : ∀ e ∈ evs, EvOKL e := by
+    intro e he
+    cases e with
+    | send side p => exact hpay side p he
+    | _ => trivial
+  have hl' : l = runL (linkInit cfgA cfgB) evs := runLink_eq _ _
+  have hinv : LInv cfgA cfgB l := by rw [hl']; exact LInv_run hl.ok evs _ (LInv_init cfgA cfgB) hev hfit
+  have hfull : LFull l := by rw [hl']; exact LFull_run hl.ok evs _ rfl rfl (LFull_init cfgA cfgB)
+  have htime : InTime l := by rw [hl']; exact InTime_run evs _ (InTime_init cfgA cfgB)
+  have hbnd : Bnd l := by rw [hl']; exact AllBnd.last hfit
+  obtain ⟨sched, h1, h2, h3, h4⟩ := C05_liveness_reconnect_state cfgA cfgB hl l hinv hfull htime hbnd hb3
+  exact ⟨sched, h1, h2.db, h2.da, h2.ea, h2.eb, h2.sa, h2.sb, h3, h4⟩
+
+/-! ### non-vacuity of the liveness theorems (interpreter) -/
+
+/-- a faulty history: traffic lost in both directions by a cut, B recreated on its store, messages accepted while down
+    on both sides -/
+def faultyHistory : List LEv :=
+  [.connect, .deliver .B, .deliver .A, .send .A "a1", .flush .A, .deliver .B,
+   .send .A "a2", .flush .A, .send .B "b1", .flush .B, .cut, .restart .B, .send .A "a3", .send .B "b2"]
+
+/-- the schedule of `C05_liveness_reconnect` for it (gaps on both sides): reconnect, Logons, flushes, the two
+    ResendRequests, then A's replay (3 elements) and B's replay (3 elements) -/
+def settleSchedule : List LEv :=
+  [.cut, .connect, .deliver .B, .deliver .A, .flush .A, .flush .B, .deliver .B, .deliver .A,
+   .deliver .B, .deliver .B, .deliver .B, .deliver .A, .deliver .A, .deliver .A]
+
+def liveA : Cfg := { initiator := true, sender := "A", target := "B", chunk := 0 }
+def liveB : Cfg := { initiator := false, sender := "B", target := "A", chunk := 0 }
+
+#guard decide (C05_numbers_fit (linkInit liveA liveB) (faultyHistory ++ settleSchedule))
+#guard (let l := runLink (linkInit liveA liveB) faultyHistory; (l.sentA, l.dlvB, l.sentB, l.dlvA)) == (["a1", "a2", "a3"], ["a1"], ["b1", "b2"], [])
+#guard (let l := runLink (runLink (linkInit liveA liveB) faultyHistory) settleSchedule
+        (l.sentA, l.dlvB, l.sentB, l.dlvA, l.a2b.length, l.b2a.length, l.a.st.name, l.b.st.name)) ==
+       (["a1", "a2", "a3"], ["a1", "a2", "a3"], ["b1", "b2"], ["b1", "b2"], 0, 0, "InSession", "InSession")
+
+-- why the schedule contains a reconnect: with deliveries, flushes and heartbeat timers alone a link can stay stuck for ever
+-- (here: B was recreated while the connection stayed up — A waits for an answer to its TestRequest, B waits for a Logon).
+-- The real engines behave the same on these ops (corpus/C05/stuck-without-timeouts.ops, `qfxh link -replay`); they get
+-- out by their own peer / logon / logout timeouts, which end in a disconnect, i.e. the reconnect of the schedule.
+def stuckHistory : List LEv :=
+  [.connect, .deliver .B, .deliver .A, .timer .B .logoutTimeout, .timer .B .logonTimeout, .send .B "p2", .deliver .B, .deliver .B,
+   .timer .A .peerTimeout, .restart .B, .deliver .B, .flush .B, .connect]
+def quietRound : List LEv :=
+  [.deliver .B, .deliver .A, .flush .A, .flush .B, .deliver .B, .deliver .A, .timer .A .needHeartbeat, .timer .B .needHeartbeat,
+   .deliver .B, .deliver .A]
+#guard (let l := runLink (runLink (linkInit liveA liveB) stuckHistory) (quietRound ++ quietRound ++ quietRound)
+        (l.sentB, l.dlvA, l.a.st.name, l.b.st.name)) == (["p2"], [], "Pending:InSession", "Logon")
+-- … and FIXT.1.1 without a DefaultApplVerID never logs on (hypothesis `LiveCfg.va` / `vb`):
+#guard (let l := runLink (runLink (linkInit { liveA with bs := 5 } { liveB with bs := 5 }) faultyHistory) settleSchedule
+        (l.sentA, l.dlvB)) == (["a1", "a2", "a3"], [])
+
 /-!
 Clause checklist (properties.jsonl C05)
 * nothing is delivered that was not sent                              : C05_safety (monitor clause `safe`), C05_safety_clauses (1st, 2nd part)
@@ -270,6 +381,12 @@ Clause checklist (properties.jsonl C05)
     as malformed by the peer and consumed: `cexHistory`, the statement without this condition `C05_safety_full` is FALSE);
     numbers within Go's `int` (`C05_numbers_fit`).  (Empty CompIDs need no condition: no Logon is then ever accepted
     and nothing is delivered — Lemmas/LinkC05i.lean.)
-* "every message … is delivered … once the link stays up for a few heartbeat intervals" (liveness): no theorem; monitor clause
-    `C05.not_all_delivered_after_settle` of `monLink` evaluated on the real engines by the `link` family
+* "every message … is delivered … once the link stays up for a few heartbeat intervals" (liveness):
+    - no gap, everything in flight gets delivered                                  : C05_liveness_nogap
+    - from EVERY reachable state, after a reconnect, ResendRequestChunkSize = 0     : C05_liveness_reconnect (reachable), C05_liveness_reconnect_state
+      (gaps on neither / either / both sides; schedule = cut, connect, both Logons, one flush per side, deliveries)
+    - with chunking (chunk size > 0)                                                : NOT proved — `def C05_liveness_full`; sampled by the `link`
+      family (monitor clause `C05.not_all_delivered_after_settle`) and 27 000 generated histories of the Lean model (chunk 0–3), all settle
+    - side conditions: roles, DefaultApplVerID under FIXT (else no Logon is accepted: #guard), head-room for the numbers; the schedule needs the
+      reconnect (or the peer / logon / logout timeouts): heartbeats alone can leave a link stuck (`stuckHistory`, same on the real engines)
 -/
